@@ -157,8 +157,18 @@ def impl_copyop_big(a):
         d = bytearray(P._delta_encode_size(len(base)) + P._delta_encode_size(ln))
         o, l = off, ln
         while l > 0:
-            n = min(l, P._MAX_COPY_LEN)
-            d += P._encode_copy_operation(o, n)
+            if a.get("git_style") and l >= 0x10000:
+                # the form C git emits for a 64 KiB copy: no size bytes (size 0 means 0x10000)
+                n = 0x10000
+                cmd, args = 0x80, bytearray()
+                for i in range(4):
+                    if (o >> (8 * i)) & 0xFF:
+                        cmd |= 1 << i
+                        args.append((o >> (8 * i)) & 0xFF)
+                d += bytes([cmd]) + args
+            else:
+                n = min(l, P._MAX_COPY_LEN)
+                d += P._encode_copy_operation(o, n)
             o += n
             l -= n
         try:
@@ -266,7 +276,18 @@ def gen_structured_delta(rng, base: bytes):
     ops = bytearray()
     out_len = 0
     for _ in range(rng.randint(0, 4)):
-        if rng.random() < 0.5 and base:
+        if len(base) >= 0x10000 and rng.random() < 0.3:
+            # valid copy of exactly 0x10000 bytes with no size byte (the form C git emits)
+            off = rng.randrange(len(base) - 0x10000 + 1)
+            cmd, args = 0x80, bytearray()
+            for i in range(4):
+                if (off >> (8 * i)) & 0xFF:
+                    cmd |= 1 << i
+                    args.append((off >> (8 * i)) & 0xFF)
+            ops.append(cmd)
+            ops += args
+            out_len += 0x10000
+        elif rng.random() < 0.5 and base:
             off = rng.randrange(len(base))
             ln = rng.randint(1, len(base) - off)
             cmd = 0x80
@@ -461,15 +482,20 @@ def _stream_copyop_big(ctx, workers, stream="copyop.big", scale=1):
     for size in (0x10000 + 300, 0x1000000 + 70000):
         cases = _copyop_cases(rng, size, ctx.budget(60) * scale)
         for v, wk in workers.items():
-            rep = wk.ask({"mod": MOD, "op": "copyop_big", "args": {"seed": 7, "size": size, "copies": cases}}, timeout=600)
-            if "r" not in rep:
-                ctx.oracle_fail(stream, {"variant": v, "size": size}, f"copy-op round trip crashed: {rep}", f"{v}-crash")
-                continue
-            for c in cases:
-                ctx.count(stream, (v, size, tuple(c)), True, f"{v}:off{c[0].bit_length() // 8}B:len{c[1].bit_length() // 8}B")
-            for off, ln in rep["r"][:5]:
-                ctx.oracle_fail(stream, {"variant": v, "base": f"random.Random(7).randbytes({size})", "off": off, "len": ln},
-                                f"apply(encode_copy({off},{ln})) != base[{off}:{off + ln}] with the {v} decoder")
+            for git_style in (False, True):
+                rep = wk.ask({"mod": MOD, "op": "copyop_big", "args": {"seed": 7, "size": size, "copies": cases,
+                                                                     "git_style": git_style}}, timeout=600)
+                if "r" not in rep:
+                    ctx.oracle_fail(stream, {"variant": v, "size": size}, f"copy-op round trip crashed: {rep}", f"{v}-crash")
+                    continue
+                for c in cases:
+                    ctx.count(stream, (v, size, tuple(c), git_style), True,
+                              f"{v}:off{c[0].bit_length() // 8}B:len{c[1].bit_length() // 8}B" + (":git-style" if git_style else ""))
+                for off, ln in rep["r"][:5]:
+                    ctx.oracle_fail(stream, {"variant": v, "base": f"random.Random(7).randbytes({size})", "off": off, "len": ln,
+                                             "git_style_size0_copies": git_style},
+                                    f"apply(copy ops for ({off},{ln})" + (", 64 KiB copies encoded git-style with no size byte" if git_style else "") +
+                                    f") != base[{off}:{off + ln}] with the {v} decoder")
 
 
 def _stream_pairs(ctx, workers):
